@@ -58,6 +58,15 @@ def main():
                 res["ran"].append(demo_cmd)
         finally:
             sh("git -C /repo worktree remove --force %s; rm -rf %s" % (wt, wt))
+    if "--confirm-only" in sys.argv:
+        # merge the confirmation into a meta.json written earlier by a --skip-confirm run (checks and confirmation in parallel)
+        mp = os.path.join(V, "seeded", name, "meta.json")
+        m = json.load(open(mp)) if os.path.exists(mp) else dict(meta, breaks_property=prop)
+        m["confirmation"] = res
+        os.makedirs(os.path.dirname(mp), exist_ok=True)
+        json.dump(m, open(mp, "w"), indent=1)
+        print(json.dumps(res, indent=1)[:2000])
+        return
     # run the checks against the patched tree.  Default: a scratch worktree of /repo with the patch applied, handed to the
     # checks through VERIF_REPO (so /repo itself is never touched and other runs can use it meanwhile);
     # --in-repo applies the patch to /repo itself and undoes it afterwards.
